@@ -78,3 +78,170 @@ pub fn selftest() -> bool {
     SIM_THREAD.with(|s| s.set(was));
     di.as_secs() >= 5 && ds.as_secs() >= 5 && other.as_secs() < 1
 }
+
+// ---- yielding and sleeping inside the library ----
+//
+// A spin / back-off loop in the library (`thread::yield_now`, `thread::sleep`) waits for
+// another thread — which, under the token scheduler, is parked. std ends in libc's
+// `sched_yield` / `nanosleep` / `clock_nanosleep`; this executable defines them: on a
+// simulated caller thread inside a guarded call a yield becomes a scheduling point and a
+// sleep advances the simulated clock instead of waiting (then is a scheduling point too).
+// Everywhere else they forward to the kernel.
+
+/// # Safety
+/// Same contract as libc's `sched_yield`.
+#[no_mangle]
+pub unsafe extern "C" fn sched_yield() -> libc::c_int {
+    if is_sim_thread() && crate::hook::in_call_fast() && crate::hook::on_yield() {
+        return 0;
+    }
+    // nobody to switch to (or not a simulated call): really yield
+    libc::syscall(libc::SYS_sched_yield) as libc::c_int
+}
+
+unsafe fn sim_sleep(req: *const libc::timespec) -> bool {
+    if req.is_null() || !is_sim_thread() || !crate::hook::in_call_fast() {
+        return false;
+    }
+    let r = &*req;
+    let ms = (r.tv_sec as u64)
+        .saturating_mul(1000)
+        .saturating_add((r.tv_nsec as u64) / 1_000_000);
+    OFFSET_NS.fetch_add(
+        (r.tv_sec as i64)
+            .saturating_mul(1_000_000_000)
+            .saturating_add(r.tv_nsec as i64),
+        Ordering::SeqCst,
+    );
+    let _ = ms;
+    let _ = crate::hook::on_yield();
+    true
+}
+
+/// # Safety
+/// Same contract as libc's `nanosleep`.
+#[no_mangle]
+pub unsafe extern "C" fn nanosleep(req: *const libc::timespec, rem: *mut libc::timespec) -> libc::c_int {
+    if sim_sleep(req) {
+        if !rem.is_null() {
+            (*rem).tv_sec = 0;
+            (*rem).tv_nsec = 0;
+        }
+        return 0;
+    }
+    libc::syscall(libc::SYS_nanosleep, req, rem) as libc::c_int
+}
+
+/// # Safety
+/// Same contract as libc's `clock_nanosleep` (returns the error number, not -1).
+#[no_mangle]
+pub unsafe extern "C" fn clock_nanosleep(
+    clk: libc::clockid_t,
+    flags: libc::c_int,
+    req: *const libc::timespec,
+    rem: *mut libc::timespec,
+) -> libc::c_int {
+    if flags == 0 && sim_sleep(req) {
+        if !rem.is_null() {
+            (*rem).tv_sec = 0;
+            (*rem).tv_nsec = 0;
+        }
+        return 0;
+    }
+    let r = libc::syscall(libc::SYS_clock_nanosleep, clk as libc::c_long, flags as libc::c_long, req, rem);
+    if r == 0 {
+        0
+    } else {
+        *libc::__errno_location()
+    }
+}
+
+// ---- timed waits ----
+//
+// std's timed waits (`Condvar::wait_timeout`, `recv_timeout`, `park_timeout`) compute an
+// ABSOLUTE deadline from `clock_gettime` and hand it to the kernel with
+// `syscall(SYS_futex, .., FUTEX_WAIT_BITSET, ..)`. On a simulated thread the deadline contains
+// the simulated offset, so the kernel would wait that much longer (up to an hour). libc's
+// `syscall` is therefore interposed as well: for exactly that futex operation on a simulated
+// thread the offset is taken out of the deadline again; everything else passes through.
+
+type SysFn = unsafe extern "C" fn(
+    libc::c_long,
+    libc::c_long,
+    libc::c_long,
+    libc::c_long,
+    libc::c_long,
+    libc::c_long,
+    libc::c_long,
+) -> libc::c_long;
+
+static REAL_SYSCALL: std::sync::atomic::AtomicUsize = std::sync::atomic::AtomicUsize::new(0);
+
+unsafe fn real_syscall() -> SysFn {
+    let mut p = REAL_SYSCALL.load(Ordering::Relaxed);
+    if p == 0 {
+        p = libc::dlsym(libc::RTLD_NEXT, b"syscall\0".as_ptr() as *const libc::c_char) as usize;
+        REAL_SYSCALL.store(p, Ordering::Relaxed);
+    }
+    std::mem::transmute::<usize, SysFn>(p)
+}
+
+/// # Safety
+/// Same contract as libc's variadic `syscall` (on x86_64 the variadic and the fixed
+/// six-argument calling sequences coincide for integer arguments).
+#[no_mangle]
+pub unsafe extern "C" fn syscall(
+    num: libc::c_long,
+    a1: libc::c_long,
+    a2: libc::c_long,
+    a3: libc::c_long,
+    a4: libc::c_long,
+    a5: libc::c_long,
+    a6: libc::c_long,
+) -> libc::c_long {
+    let real = real_syscall();
+    const FUTEX_WAIT_BITSET: libc::c_long = 9;
+    const FUTEX_CMD_MASK: libc::c_long = !(128 | 256);
+    if num == libc::SYS_futex && a4 != 0 && (a2 & FUTEX_CMD_MASK) == FUTEX_WAIT_BITSET && is_sim_thread() {
+        let off = OFFSET_NS.load(Ordering::SeqCst);
+        if off > 0 {
+            let mut ts = *(a4 as *const libc::timespec);
+            let total = (ts.tv_sec as i128) * 1_000_000_000 + ts.tv_nsec as i128 - off as i128;
+            let total = total.max(0);
+            ts.tv_sec = (total / 1_000_000_000) as libc::time_t;
+            ts.tv_nsec = (total % 1_000_000_000) as libc::c_long;
+            return real(num, a1, a2, a3, &ts as *const libc::timespec as libc::c_long, a5, a6);
+        }
+    }
+    real(num, a1, a2, a3, a4, a5, a6)
+}
+
+/// Self-test: a 30 ms timed wait on a simulated thread with a one-hour offset returns in time.
+pub fn selftest_timed_wait() -> bool {
+    let h = std::thread::spawn(|| {
+        set_sim_thread(true);
+        let before = OFFSET_NS.load(Ordering::SeqCst);
+        OFFSET_NS.fetch_add(3_600_000_000_000, Ordering::SeqCst);
+        let pair = (std::sync::Mutex::new(false), std::sync::Condvar::new());
+        let real0 = {
+            let mut ts = libc::timespec { tv_sec: 0, tv_nsec: 0 };
+            unsafe { real_syscall()(libc::SYS_clock_gettime, libc::CLOCK_MONOTONIC as libc::c_long, &mut ts as *mut _ as libc::c_long, 0, 0, 0, 0) };
+            ts.tv_sec as i128 * 1_000_000_000 + ts.tv_nsec as i128
+        };
+        let g = pair.0.lock().unwrap();
+        let (_g, to) = pair
+            .1
+            .wait_timeout(g, std::time::Duration::from_millis(30))
+            .unwrap();
+        let real1 = {
+            let mut ts = libc::timespec { tv_sec: 0, tv_nsec: 0 };
+            unsafe { real_syscall()(libc::SYS_clock_gettime, libc::CLOCK_MONOTONIC as libc::c_long, &mut ts as *mut _ as libc::c_long, 0, 0, 0, 0) };
+            ts.tv_sec as i128 * 1_000_000_000 + ts.tv_nsec as i128
+        };
+        OFFSET_NS.store(before, Ordering::SeqCst);
+        set_sim_thread(false);
+        let waited_ms = (real1 - real0) / 1_000_000;
+        to.timed_out() && (20..2000).contains(&waited_ms)
+    });
+    h.join().unwrap_or(false)
+}
